@@ -86,8 +86,12 @@ def r02_1(ctx, m):
 
     for g0 in gens:
         ctx.analysed_func(g0)
-        g = tail_inlined(repo, g0)
+        from ..core import while_next_loops
+
+        g = while_next_loops(tail_inlined(repo, g0))
         loops = [n for n in g.node.body if isinstance(n, ast.For) and "read_file" in norm(n.iter)]
+        if not loops:
+            raise AnalysisError("R02.1", g.where(), "cannot find the loop over the parsed records of the input (for ... in <GAF>.read_file())")
         if len(loops) != 1:
             ctx.violated("R02.1", g.where(), "the generator does not stream the parsed records of the input with one loop", key_of(g, "stream-loop"))
             continue
